@@ -91,8 +91,8 @@ Lemma idle_only_wait_cycles fuel e i started : forall now evs r,
 Proof.
   induction fuel as [|f IH]; intros now evs r; cbn [idle_only_wait].
   - intro E; injection E as <- _; reflexivity.
-  - destruct (irt e now <=? started).
-    + destruct ((i <=? 0) || stopped e now).
+  - destruct ((irt e now <=? started) && negb (stopped e now)).
+    + destruct (i <=? 0).
       * intro E; injection E as <- _; reflexivity.
       * destruct (sleep e now i) as [t|].
         -- destruct (idle_only_wait f e i started t) as [evs' r'] eqn:Er. intro E; injection E as <- _.
@@ -154,37 +154,48 @@ Proof.
 Qed.
 
 Lemma idle_only_wait_spec fuel e i started : forall now evs t,
-  idle_only_wait fuel e i started now = (evs, WGo t) -> now <= t /\ started < irt e t.
+  idle_only_wait fuel e i started now = (evs, WGo t) ->
+  now <= t /\ (started < irt e t \/ stopped e t = true).
 Proof.
   induction fuel as [|f IH]; intros now evs t; cbn [idle_only_wait]; [discriminate|].
-  destruct (Z.leb_spec (irt e now) started) as [Hle|Hgt].
-  - destruct ((i <=? 0) || stopped e now); [discriminate|].
+  destruct ((irt e now <=? started) && negb (stopped e now)) eqn:Ec.
+  - destruct (i <=? 0); [discriminate|].
     destruct (sleep e now i) as [t1|] eqn:Esl; [|discriminate].
     destruct (idle_only_wait f e i started t1) as [evs' r'] eqn:Er.
     intro E; injection E as _ ->.
     pose proof (IH _ _ _ Er) as (H1 & H2). pose proof (sleep_woke _ _ _ _ Esl) as (Hn & _).
     split; [lia|exact H2].
-  - intro E; injection E as _ <-. split; lia.
+  - intro E; injection E as _ <-. split; [lia|].
+    apply andb_false_iff in Ec. destruct Ec as [Ec|Ec].
+    + left. apply Z.leb_gt in Ec. exact Ec.
+    + right. apply negb_false_iff in Ec. exact Ec.
 Qed.
 
 (* ------------------------------------------------------------------ one cycle *)
 Lemma exec_wf c h t en inv hend h2 :
   exec c h t en = (inv, hend, h2) ->
-  wf_cyc c (mkcyc t inv hend (hend + Z.max 0 (e_plat en)) en (finished h2) (h_delayed h2)).
+  wf_cyc c (mkcyc t inv hend (hend + Z.max 0 (e_plat en)) en (finished h2) (h_failure h2) (h_delayed h2)).
 Proof.
-  unfold exec, wf_cyc, expected_delayed. cbn [y_start y_hend y_pend y_en y_inv y_done y_delayed].
+  unfold exec, wf_cyc, expected_delayed. cbn [y_start y_hend y_pend y_en y_inv y_done y_failed y_delayed].
+  assert (Hfd : forall x, h_failure x = true -> finished x = true)
+    by (intros x Hx; unfold finished; rewrite Hx; apply orb_true_r).
   destruct (negb (awakened h t)).
-  { intro E; injection E as <- <- <-. repeat split; try lia; try discriminate. }
+  { intro E; injection E as <- <- <-. repeat split; try lia; try discriminate; auto. }
   destruct (hits (c_timeout c) (t - h_started h)).
-  { intro E; injection E as <- <- <-. repeat split; try lia; try discriminate. }
+  { intro E; injection E as <- <- <-. repeat split; try lia; try discriminate; auto. }
   destruct (hits (c_retries c) (h_retries h)).
-  { intro E; injection E as <- <- <-. repeat split; try lia; try discriminate. }
-  intro E; injection E as <- <- <-. repeat split; try lia.
-  all: match goal with H : finished _ = false |- _ => revert H end;
-    unfold finished, with_outcome, classify; cbn [h_success h_failure h_delayed];
+  { intro E; injection E as <- <- <-. repeat split; try lia; try discriminate; auto. }
+  intro E; injection E as <- <- <-.
+  split; [lia|]. split; [lia|]. split; [reflexivity|]. split; [reflexivity|].
+  split; [|split; [|apply Hfd]].
+  - intros _. unfold finished, with_outcome, classify; cbn [h_success h_failure h_delayed].
     destruct (e_out en) as [|[d|]| |]; try destruct (c_errors c);
     repeat match goal with |- context [if ?b then _ else _] => destruct b end;
-    cbn [orb]; intros; try discriminate; try reflexivity.
+    cbn [orb]; intros; try discriminate; repeat split; try discriminate; try reflexivity.
+  - intros _. unfold finished, with_outcome, classify; cbn [h_success h_failure h_delayed].
+    destruct (e_out en) as [|[d|]| |]; try destruct (c_errors c);
+    repeat match goal with |- context [if ?b then _ else _] => destruct b end;
+    cbn [orb]; intros; try discriminate; auto.
 Qed.
 
 Lemma post_spec fuel c e y h evs t' :
@@ -202,7 +213,7 @@ Proof.
       * destruct (sleep e (y_pend y) i) as [t|] eqn:Esl; [|discriminate].
         injection E as _ <-. apply sleep_woke in Esl. destruct Esl as [_ Hx]. apply Hx. exact Hst.
     + destruct (c_idle c) as [i|]; [|discriminate].
-      apply idle_only_wait_spec in E. exact E.
+      apply idle_only_wait_spec in E. destruct E as [E1 [E2|E2]]; [split; assumption|congruence].
   - destruct (sleep e (y_pend y) (state_delay h (y_pend y))) as [t|] eqn:Esl; [|discriminate].
     injection E as _ <-. apply sleep_woke in Esl. destruct Esl as [_ Hx]. specialize (Hx Hst).
     rewrite Hdl. unfold state_delay in Hx. destruct (h_delayed h) as [d|]; lia.
@@ -222,7 +233,7 @@ Lemma loop_unfold fuel c e script now h :
   loop fuel c e script now h =
   if stopped e now then ([], FStopped now)
   else
-    let h1 := if finished h then fresh now else h in
+    let h1 := reset_if_succeeded h now in
     match pre_wait fuel c e now with
     | (evs0, WEnd f) => (evs0, f)
     | (evs0, WGo t) =>
@@ -231,7 +242,7 @@ Lemma loop_unfold fuel c e script now h :
              | [] => (evs0, FOut t)
              | en :: rest =>
                  let '(inv, hend, h2) := exec c h1 t en in
-                 let y := mkcyc t inv hend (hend + Z.max 0 (e_plat en)) en (finished h2) (h_delayed h2) in
+                 let y := mkcyc t inv hend (hend + Z.max 0 (e_plat en)) en (finished h2) (h_failure h2) (h_delayed h2) in
                  match post fuel c e y h2 with
                  | (evs1, WEnd f) => (evs0 ++ ECyc y :: evs1, f)
                  | (evs1, WGo t') =>
@@ -257,10 +268,10 @@ Proof.
     destruct (pre_wait fuel c e now) as [evs0 [t|f]] eqn:Epw;
       [|cbn [fst]; rewrite (pre_wait_cycles _ _ _ _ _ _ Epw); constructor].
     destruct (stopped e t) eqn:Est; [cbn [fst]; rewrite (pre_wait_cycles _ _ _ _ _ _ Epw); constructor|].
-    destruct (exec c (if finished h then fresh now else h) t en) as [[inv hend] h2] eqn:Eex.
+    destruct (exec c (reset_if_succeeded h now) t en) as [[inv hend] h2] eqn:Eex.
     pose proof (exec_wf _ _ _ _ _ _ _ Eex) as Hwf.
     pose proof (pre_wait_spec _ _ _ _ _ _ Epw Est) as Hidle.
-    set (y := mkcyc t inv hend (hend + Z.max 0 (e_plat en)) en (finished h2) (h_delayed h2)) in *.
+    set (y := mkcyc t inv hend (hend + Z.max 0 (e_plat en)) en (finished h2) (h_failure h2) (h_delayed h2)) in *.
     destruct (post fuel c e y h2) as [evs1 [t'|f]] eqn:Epost.
     + specialize (IH t' h2).
       destruct (loop fuel c e rest t' h2) as [evs2 f2] eqn:El. cbn [fst] in *.
@@ -410,7 +421,7 @@ Section Laws.
         idle_ok e (c_idle c) (Z.max (y_pend y1) (y_hend y1 + c_backoff c)) (y_start y2)).
   Proof.
     intros H1 H2 Hinv Hd. pose proof (timer_chain fuel c e spawn script) as Hc. fold ys in Hc.
-    destruct (chain_each _ _ _ _ Hc _ (nth_error_In _ _ H1)) as ((Ha & Hb & _ & _ & Hdl) & _).
+    destruct (chain_each _ _ _ _ Hc _ (nth_error_In _ _ H1)) as ((Ha & Hb & _ & _ & Hdl & _) & _).
     destruct (Hdl Hinv Hd) as (Hdl' & _).
     destruct (chain_consecutive _ _ _ _ Hc _ _ _ H1 H2) as (b & Hn & Hok).
     unfold next_base in Hn. rewrite Hd, Hdl' in Hn. unfold expected_delayed in Hn.
@@ -483,8 +494,8 @@ Proof.
     destruct (pre_wait fuel c e now) as [evs0 [t|f]] eqn:Epw;
       [|exists 0%nat; cbn [fst]; rewrite (pre_wait_cycles _ _ _ _ _ _ Epw); reflexivity].
     destruct (stopped e t); [exists 0%nat; cbn [fst]; rewrite (pre_wait_cycles _ _ _ _ _ _ Epw); reflexivity|].
-    destruct (exec c (if finished h then fresh now else h) t en) as [[inv hend] h2].
-    set (y := mkcyc t inv hend (hend + Z.max 0 (e_plat en)) en (finished h2) (h_delayed h2)) in *.
+    destruct (exec c (reset_if_succeeded h now) t en) as [[inv hend] h2].
+    set (y := mkcyc t inv hend (hend + Z.max 0 (e_plat en)) en (finished h2) (h_failure h2) (h_delayed h2)) in *.
     destruct (post fuel c e y h2) as [evs1 [t'|f]] eqn:Epost.
     + destruct (IH t' h2) as [n Hn].
       destruct (loop fuel c e rest t' h2) as [evs2 f2]. cbn [fst] in *.
@@ -524,22 +535,7 @@ Proof.
 Qed.
 
 (* ------------------------------------------------------------------ witnesses *)
-(* retries=1: the first arbitrary error is already final, the state is reset (DESIGN §9 F9, C11) and the
-   INTERVAL (1 s), not the backoff (60 s), schedules the next run. *)
-Definition wit_cfg_final_failure : cfg := mkcfg (Some 1000) false None None (Some 1) None 60000 ETemporary.
 Definition wit_env_plain : env := mkenv 0 [] None 100000.
-Definition wit_script_final_failure : list entry := [mkentry 250 0 OArb; mkentry 0 0 OOk].
-
-Lemma after_failure_full_refuted :
-  exists fuel c e spawn script k y1 y2,
-    nth_error (timer_cycles fuel c e spawn script) k = Some y1 /\
-    nth_error (timer_cycles fuel c e spawn script) (S k) = Some y2 /\
-    y_inv y1 = true /\ e_out (y_en y1) = OArb /\ c_errors c = ETemporary /\
-    y_start y2 < y_hend y1 + c_backoff c.
-Proof.
-  exists 10%nat, wit_cfg_final_failure, wit_env_plain, 0, wit_script_final_failure, 0%nat.
-  eexists. eexists. repeat apply conj; vm_compute; reflexivity.
-Qed.
 
 (* sharp + idle: an essential change during the sleep moves the run off the grid of the first start *)
 Definition wit_cfg_sharp_idle : cfg := mkcfg (Some 1000) true (Some 2000) None None None 60000 ETemporary.
@@ -675,3 +671,129 @@ Lemma idle_wait_fuel_enough e i fuel now evs t : (List.length (v_resets e) + 2 <
 Proof.
   intro H. apply idle_wait_fuel_aux; [lia|]. intros _. pose proof (later_le_length e (irt e now)). lia.
 Qed.
+
+(* ------------------------------------------------------------------ a handler that failed for good is never entered again *)
+Lemma exec_failed c h t en : h_failure h = true -> exec c h t en = (false, t, h).
+Proof.
+  intro Hf. unfold exec, awakened, finished. rewrite Hf, orb_true_r. reflexivity.
+Qed.
+
+Lemma reset_failed h now : h_failure h = true -> reset_if_succeeded h now = h.
+Proof. intro Hf. unfold reset_if_succeeded. rewrite Hf, andb_false_r. reflexivity. Qed.
+
+(* shape of one iteration of the main loop *)
+Lemma loop_decomp fuel c e en rest now h :
+  cycles (fst (loop fuel c e (en :: rest) now h)) = [] \/
+  exists t inv hend h2 tail,
+    exec c (reset_if_succeeded h now) t en = (inv, hend, h2) /\
+    cycles (fst (loop fuel c e (en :: rest) now h)) =
+      mkcyc t inv hend (hend + Z.max 0 (e_plat en)) en (finished h2) (h_failure h2) (h_delayed h2) :: tail /\
+    (tail = [] \/ exists t', tail = cycles (fst (loop fuel c e rest t' h2))).
+Proof.
+  rewrite loop_unfold.
+  destruct (stopped e now); [left; reflexivity|]. cbv zeta.
+  destruct (pre_wait fuel c e now) as [evs0 [t|f]] eqn:Epw;
+    [|left; cbn [fst]; apply (pre_wait_cycles _ _ _ _ _ _ Epw)].
+  destruct (stopped e t); [left; cbn [fst]; apply (pre_wait_cycles _ _ _ _ _ _ Epw)|].
+  destruct (exec c (reset_if_succeeded h now) t en) as [[inv hend] h2] eqn:Eex.
+  right. exists t, inv, hend, h2.
+  set (y := mkcyc t inv hend (hend + Z.max 0 (e_plat en)) en (finished h2) (h_failure h2) (h_delayed h2)) in *.
+  destruct (post fuel c e y h2) as [evs1 [t'|f]] eqn:Epost.
+  - destruct (loop fuel c e rest t' h2) as [evs2 f2] eqn:El.
+    exists (cycles evs2). split; [exact Eex|]. split.
+    + cbn [fst]. rewrite cycles_app, (pre_wait_cycles _ _ _ _ _ _ Epw). cbn [app cycles].
+      rewrite cycles_app, (post_cycles _ _ _ _ _ _ _ Epost). reflexivity.
+    + right. exists t'. rewrite El. reflexivity.
+  - exists []. split; [exact Eex|]. split; [|left; reflexivity].
+    cbn [fst]. rewrite cycles_app, (pre_wait_cycles _ _ _ _ _ _ Epw). cbn [app cycles].
+    rewrite (post_cycles _ _ _ _ _ _ _ Epost). reflexivity.
+Qed.
+
+Lemma loop_nil_script fuel c e now h : cycles (fst (loop fuel c e [] now h)) = [].
+Proof.
+  rewrite loop_unfold. destruct (stopped e now); [reflexivity|]. cbv zeta.
+  destruct (pre_wait fuel c e now) as [evs0 [t|f]] eqn:Epw;
+    [destruct (stopped e t)|]; cbn [fst]; apply (pre_wait_cycles _ _ _ _ _ _ Epw).
+Qed.
+
+Lemma loop_failed_sticky fuel c e : forall script now h, h_failure h = true ->
+  forall y, In y (cycles (fst (loop fuel c e script now h))) -> y_inv y = false /\ y_failed y = true.
+Proof.
+  induction script as [|en rest IH]; intros now h Hf y Hin.
+  - rewrite loop_nil_script in Hin. destruct Hin.
+  - destruct (loop_decomp fuel c e en rest now h) as [E|(t & inv & hend & h2 & tail & Eex & E & Ht)];
+      rewrite E in Hin; [destruct Hin|].
+    rewrite (reset_failed _ _ Hf), (exec_failed _ _ _ _ Hf) in Eex. injection Eex as <- <- <-.
+    destruct Hin as [<-|Hin]; [cbn; auto|].
+    destruct Ht as [->|(t' & ->)]; [destruct Hin|]. eapply IH; eassumption.
+Qed.
+
+Lemma loop_no_run_after_failure fuel c e : forall script now h i j yi yj, (i < j)%nat ->
+  nth_error (cycles (fst (loop fuel c e script now h))) i = Some yi -> y_failed yi = true ->
+  nth_error (cycles (fst (loop fuel c e script now h))) j = Some yj ->
+  y_inv yj = false /\ y_failed yj = true.
+Proof.
+  induction script as [|en rest IH]; intros now h i j yi yj Hij Hi Hf Hj.
+  - rewrite loop_nil_script in Hi. destruct i; discriminate.
+  - destruct (loop_decomp fuel c e en rest now h) as [E|(t & inv & hend & h2 & tail & Eex & E & Ht)];
+      rewrite E in Hi, Hj; [destruct i; discriminate|].
+    destruct j as [|j]; [lia|]. cbn [nth_error] in Hj.
+    destruct Ht as [->|(t' & ->)]; [destruct j; discriminate|].
+    destruct i as [|i].
+    + cbn in Hi. injection Hi as <-. cbn [y_failed] in Hf.
+      eapply loop_failed_sticky; [exact Hf|]. eapply nth_error_In; exact Hj.
+    + cbn [nth_error] in Hi. eapply (IH t' h2 i j); try eassumption. lia.
+Qed.
+
+Lemma law_no_run_after_final_failure fuel c e spawn script i j yi yj : (i < j)%nat ->
+  nth_error (timer_cycles fuel c e spawn script) i = Some yi -> y_failed yi = true ->
+  nth_error (timer_cycles fuel c e spawn script) j = Some yj ->
+  y_inv yj = false /\ y_failed yj = true.
+Proof.
+  unfold timer_cycles, timer_run. destruct (c_initial c) as [d|].
+  - destruct (sleep e spawn d) as [t|]; [|intros _ H; destruct i; discriminate].
+    pose proof (loop_no_run_after_failure fuel c e script t (fresh t) i j yi yj) as L.
+    destruct (loop fuel c e script t (fresh t)) as [evs f]. cbn [fst cycles sleep_ev] in *. exact L.
+  - apply loop_no_run_after_failure.
+Qed.
+
+(* the full statement of the law: between two consecutive RUNS, a failed first one imposes its delay / the backoff *)
+Lemma law_after_failure_full fuel c e spawn script k y1 y2 :
+  nth_error (timer_cycles fuel c e spawn script) k = Some y1 ->
+  nth_error (timer_cycles fuel c e spawn script) (S k) = Some y2 ->
+  y_inv y1 = true -> y_inv y2 = true ->
+  (forall d, e_out (y_en y1) = OTemp (Some d) -> y_hend y1 + d <= y_start y2) /\
+  (e_out (y_en y1) = OArb -> c_errors c <> EIgnored -> y_hend y1 + c_backoff c <= y_start y2).
+Proof.
+  intros H1 H2 Hi1 Hi2.
+  assert (Hnf : y_failed y1 = false).
+  { destruct (y_failed y1) eqn:Ef; [|reflexivity].
+    destruct (law_no_run_after_final_failure fuel c e spawn script k (S k) y1 y2 ltac:(lia) H1 Ef H2) as [Hx _].
+    congruence. }
+  pose proof (timer_chain fuel c e spawn script) as Hc.
+  destruct (chain_each _ _ _ _ Hc _ (nth_error_In _ _ H1)) as ((_ & _ & _ & _ & _ & Hcls & _) & _).
+  assert (Hnd : e_out (y_en y1) <> OOk -> (e_out (y_en y1) = OArb -> c_errors c <> EIgnored) -> y_done y1 = false).
+  { intros Hno Hna. destruct (y_done y1) eqn:Ed; [|reflexivity].
+    destruct (Hcls Hi1 eq_refl Hnf) as [Ho|[Ho Hm]]; [contradiction|]. exfalso. exact (Hna Ho Hm). }
+  split.
+  - intros d Hd. assert (Hdn : y_done y1 = false) by (apply Hnd; rewrite Hd; [discriminate|discriminate]).
+    destruct (law_after_failure fuel c e spawn script k y1 y2 H1 H2 Hi1 Hdn) as (L & _ & _). apply (L d Hd).
+  - intros Ha Hm. assert (Hdn : y_done y1 = false) by (apply Hnd; [rewrite Ha; discriminate|intros _; exact Hm]).
+    destruct (law_after_failure fuel c e spawn script k y1 y2 H1 H2 Hi1 Hdn) as (_ & _ & L). apply (L Ha).
+Qed.
+
+(* witness that the hypotheses of law_no_run_after_final_failure are met: retries=1, the first arbitrary error is
+   final; the timer keeps cycling every interval but never enters the function again *)
+Definition wit_cfg_final_failure : cfg := mkcfg (Some 1000) false None None (Some 1) None 60000 ETemporary.
+Definition wit_script_final_failure : list entry := [mkentry 250 0 OArb; mkentry 0 0 OOk; mkentry 0 0 OOk].
+
+Example ex_final_failure_run :
+  map (fun y => (y_start y, y_inv y, y_failed y)) (timer_cycles 10 wit_cfg_final_failure wit_env_plain 0 wit_script_final_failure) =
+  [(0, true, true); (1250, false, true); (2250, false, true)].
+Proof. vm_compute. reflexivity. Qed.
+
+(* idle-only timer whose stopper is set during the wait for the next change: the wait ends, the loop exits *)
+Example ex_idle_only_stop :
+  snd (timer_run 50 (mkcfg None false (Some 2000) None None None 60000 ETemporary) (mkenv 0 [500] (Some 4000) 100000) 0
+         [mkentry 250 125 OOk; mkentry 0 0 OOk]) = FStopped 4000.
+Proof. vm_compute. reflexivity. Qed.
